@@ -1048,7 +1048,7 @@ func TestPolicyTreeRandom(t *testing.T) {
 			orders = append(orders, id, rev)
 			orders = append(orders, rapid.SliceOfN(rapid.Permutation(id), 6, 6).Draw(t, "orders")...)
 		}
-		r.Case()
+		r.CaseN(int64(len(reqs))) // one evaluation per (declaration set, request)
 		r.Class(fmt.Sprintf("declarations=%d", len(ds)))
 		v, fail, err := checkSet(r, ds, orders, reqs)
 		finish(t, r, fail, err)
@@ -1082,7 +1082,7 @@ func TestPolicyTreeSmallScope(t *testing.T) {
 				d.Kind, d.Remedy = i, fmt.Sprintf("R%d", i)
 				ds[i] = d
 			}
-			r.Case()
+			r.CaseN(int64(len(reqs))) // one evaluation per (declaration set, request)
 			r.Class(fmt.Sprintf("declarations=%d", len(ds)))
 			v, fail, err := checkSet(r, ds, allPerms(len(ds)), reqs)
 			finish(t, r, fail, err)
@@ -1106,7 +1106,7 @@ func TestDispatchAgreesWithSelection(t *testing.T) {
 	rapid.Check(t, func(t *rapid.T) {
 		ds := genDecls().Draw(t, "declarations")
 		reqs := rapid.SliceOfN(genRequest(ds), 6, 6).Draw(t, "requests")
-		r.Case()
+		r.CaseN(int64(len(reqs)))
 		// every declaration carries one fixed_response remedy whose status code is the marker
 		eps := make([]sharedConfig.EndpointConfig, len(ds))
 		for i := range ds {
